@@ -181,7 +181,19 @@ func BuildCase(res *Result) (term string, steps int, problem string) {
 			}
 		}
 		if last > 0 {
-			by[g] = evs[:last]
+			// only a step that has shown no output yet can be missing one (after the wake-up nothing that carries
+			// a message can happen; what can is the abandon of an empty set's failed request)
+			substantive := false
+			for _, e := range evs[last+1:] {
+				switch e.Kind {
+				case "return.error", "return.success", "return.rawerror", "retry.enqueue", "pp.send", "dispatcher.forward",
+					"tp.forward", "bp.add", "bp.waitForSpace", "registry.abandon", "interceptor.apply":
+					substantive = true
+				}
+			}
+			if !substantive && evs[last].Kind != "bp.flush" {
+				by[g] = evs[:last]
+			}
 		}
 	}
 	// first-pass errors of the topic workers are environment results for m_pres
